@@ -85,6 +85,17 @@ DropModel(a, m) ==
     /\ Log([op |-> "dropmodel", app |-> a, model |-> m])
     /\ UNCHANGED <<feats, installed, tables, sig, refsGone>>
 
+(* every model of an app leaves models.py at once (the app stays installed, model-less) *)
+DropAll(a) ==
+    /\ a \in installed /\ models[a] = AllModels[a]
+    /\ \/ a = "pq"
+       \/ (a = "p" /\ (RefsIntoP(feats) = {} \/ "r" \notin installed \/ "F" \notin models["r"]))
+       \/ (a = "r" /\ ("farM2M" \notin feats \/ "p" \notin installed \/ "A" \notin models["p"]))
+    /\ models' = [models EXCEPT ![a] = {}]
+    /\ pendDel' = pendDel \cup { <<a, m>> : m \in models[a] }
+    /\ Log([op |-> "dropall", app |-> a])
+    /\ UNCHANGED <<feats, installed, tables, sig, refsGone>>
+
 (* As found: within one upgrade the apps' evolutions run in INSTALLED_APPS order
    (p before r) and the purges afterwards, in signature order (p before r).  Once
    p.A is gone from the signature, DeleteModel('F') cannot even build the model F,
@@ -131,6 +142,7 @@ Evolve(purge) ==
 Next == /\ Len(hist) < MaxOps
         /\ \/ \E a \in Apps : Uninstall(a)
            \/ \E a \in Apps : \E m \in AllModels[a] : DropModel(a, m)
+           \/ \E a \in Apps : DropAll(a)
            \/ \E b \in BOOLEAN : Evolve(b)
 
 Spec == Init /\ [][Next]_vars
